@@ -439,9 +439,113 @@ func stackCase(nR, n int, id int) *conCase {
 	return c
 }
 
+// wideNotdefCase: notdef ranges that span a whole 3- or 4-byte code space (more
+// than 2^31 codes for four bytes).  Every code of a notdef range has the same
+// CID, so the reference needs no position arithmetic; the probes sit at the
+// first and last code, on both sides of position 0x7FFFFFFF, and at random.
+func wideNotdefCase(rd *rand.Rand, n, variant, id int) *conCase {
+	lo, hi := make([]int, n), make([]int, n)
+	for i := range hi {
+		hi[i] = 0xff
+	}
+	c := &conCase{Kind: "cid", CSR: []rng{{lo, hi}}, Origin: fmt.Sprintf("widenotdef:%dbyte/v%d", n, variant)}
+	c.Opt = options{Version: versionNames[id%len(versionNames)], Pretty: id%2 == 0, WMode: id % 2}
+	code := func(bs ...int) []int {
+		out := make([]int, n)
+		copy(out[n-len(bs):], bs)
+		return out
+	}
+	top := func(first int, rest int) []int { // first byte, all other bytes = rest
+		out := make([]int, n)
+		out[0] = first
+		for i := 1; i < n; i++ {
+			out[i] = rest
+		}
+		return out
+	}
+	wide := notdef{Lo: lo, Hi: hi, V: 7}
+	upper := notdef{Lo: top(0x80, 0), Hi: hi, V: 9} // the upper half only
+	lowerHi := top(0x7f, 0xff)
+	mapped := []entry{{C: code(0x41), V: cidVal(100)}, {C: code(0x42), V: cidVal(101)}, {C: top(0x80, 0), V: cidVal(300)}, {C: top(0xc3, 0x11), V: cidVal(5)}}
+	parentMap := []entry{{C: top(0xfe, 0xfe), V: cidVal(42)}, {C: code(0x41), V: cidVal(1)}}
+	switch variant {
+	case 0: // one file, the whole space
+		c.Layers = []layer{{Entries: mapped, Notdef: []notdef{wide}}}
+	case 1: // one file, two ranges that meet at the middle of the space
+		c.Layers = []layer{{Entries: mapped[:2], Notdef: []notdef{{Lo: lo, Hi: lowerHi, V: 3}, upper}}}
+	case 2: // the range belongs to the child of a usecmap chain
+		c.Layers = []layer{{Entries: mapped, Notdef: []notdef{wide}}, {Entries: parentMap, Notdef: []notdef{}}}
+	case 3: // the range belongs to the root, the child has the upper half
+		c.Layers = []layer{{Entries: mapped[:1], Notdef: []notdef{upper}}, {Entries: parentMap, Notdef: []notdef{wide}}}
+	default: // three layers, only the grandparent has the range
+		c.Layers = []layer{{Entries: mapped[2:], Notdef: []notdef{}}, {Entries: mapped[:2], Notdef: []notdef{}}, {Entries: parentMap, Notdef: []notdef{wide}}}
+	}
+	probes := [][]int{lo, hi, lowerHi, top(0x80, 0), top(0x7f, 0), top(0x80, 0xff), top(0xff, 0), code(1), code(0x41), code(0x42), code(0x43),
+		top(0xc3, 0x11), top(0xfe, 0xfe), top(0xfe, 0xff), lo[:n-1], append(append([]int{}, hi...), 0)}
+	for i := 0; i < 40; i++ {
+		p := make([]int, n)
+		for j := range p {
+			p[j] = rd.Intn(256)
+		}
+		if i%4 == 0 {
+			p[0] = 0x7f + rd.Intn(2)
+		}
+		probes = append(probes, p)
+	}
+	seen := map[string]bool{}
+	for _, p := range probes {
+		if !seen[key(p)] {
+			seen[key(p)] = true
+			c.Probes = append(c.Probes, p)
+		}
+	}
+	return c
+}
+
+// wideRangeCase: one cidrange over a whole 3- or 4-byte code space, value 0.
+// Positions up to 0x7FFFFFFF are probed (rangeIndex documents that it treats
+// larger positions as unmapped; TLC's integers end there too).
+func wideRangeCase(rd *rand.Rand, n, id int) *conCase {
+	lo, hi := make([]int, n), make([]int, n)
+	for i := range hi {
+		hi[i] = 0xff
+	}
+	zero := 0
+	c := &conCase{Kind: "wide-cid", CSR: []rng{{lo, hi}}, Origin: fmt.Sprintf("widerange:%dbyte", n)}
+	c.Opt = options{Version: versionNames[id%len(versionNames)], Pretty: id%2 == 0}
+	c.File.Ranges = []fRange{{First: lo, Last: hi, V: &zero}}
+	fill := func(first, rest int) []int {
+		out := make([]int, n)
+		out[0] = first
+		for i := 1; i < n; i++ {
+			out[i] = rest
+		}
+		return out
+	}
+	c.Probes = [][]int{lo, fill(0, 0xff), fill(0x7f, 0xff), fill(0x7f, 0), fill(0x40, 0x80), lo[:n-1]}
+	if n < 4 {
+		c.Probes = append(c.Probes, hi, fill(0x80, 0))
+	}
+	for i := 0; i < 30; i++ {
+		p := make([]int, n)
+		for j := range p {
+			p[j] = rd.Intn(256)
+		}
+		if n == 4 {
+			p[0] &= 0x7f
+		}
+		c.Probes = append(c.Probes, p)
+	}
+	return c
+}
+
 func randomCases(ctx *core.Ctx) []*conCase {
 	rd := ctx.Rand("random-maps")
 	var out []*conCase
+	out = append(out, wideRangeCase(rd, 4, 0), wideRangeCase(rd, 3, 1))
+	for v := 0; v < 5; v++ {
+		out = append(out, wideNotdefCase(rd, 4, v, v), wideNotdefCase(rd, 3, v, v+1))
+	}
 	for i, p := range [][2]int{{10, 256}, {70, 256}, {99, 200}, {99, 256}, {150, 256}} {
 		out = append(out, stackCase(p[0], p[1], i))
 	}
